@@ -311,7 +311,7 @@ func FuzzNode(seed int64, steps int, idMul uint64) *Cluster {
 			n.Step(cloneMsg(m))
 		case r < 57:
 			n.Tick()
-		case r < 60:
+		case r < 62:
 			n.Campaign()
 		case r < 66:
 			n.Propose([]byte(fmt.Sprintf("p%d", step)))
@@ -339,7 +339,7 @@ func FuzzNode(seed int64, steps int, idMul uint64) *Cluster {
 				for len(n.AppendQ) > 0 && n.Alive && rng.Intn(4) != 0 {
 					c.appendThread(n)
 				}
-				for len(n.ApplyQ) > 0 && n.Alive && rng.Intn(4) != 0 {
+				for len(n.ApplyQ) > 0 && n.Alive && rng.Intn(2) != 0 { // the apply thread lags more often than the append thread
 					c.applyThread(n)
 				}
 			}
